@@ -275,6 +275,18 @@ pub fn run(tier: Tier) -> i32 {
         }
     });
     st = st.merge(s3);
+    // numbers one or two ulps apart, and adjacent doubles above 2^53: ordering is exact
+    let close = [json!(0.3), json!(0.30000000000000004), json!(0.1), json!(0.7100000000000002), json!(0.71), json!(9007199254740992u64), json!(9007199254740993u64), json!(9007199254740994u64), json!(1e300), json!(1.0000000000000002e300)];
+    for a in seqs(&close, 3) {
+        let d = json!({ "x": a });
+        for f in ["sort", "max", "min", "reverse"] {
+            call(&format!("{}(x)", f), &d, &mut st);
+        }
+        let objs: Vec<Value> = a.iter().enumerate().map(|(i, k)| json!({"k": k, "i": i})).collect();
+        for f in ["sort_by(@, &k)", "max_by(@, &k)", "min_by(@, &k)"] {
+            call(f, &Value::Array(objs.clone()), &mut st);
+        }
+    }
     // to_number
     for s in ["1", "-1", "1.5", "1e2", "0", "", "abc", "\"x\"", "[1]", "true", "null", "{}", "1 2", "-0", "1E+2", "0.0", "12345678901234567890", "-", "e", "\"1\"", "[]", "false"] {
         call("to_number(x)", &json!({ "x": s }), &mut st);
